@@ -105,7 +105,7 @@ PROPS = {
     },
     'C05': {
         'units': ['ops', 'heap', 'optrace', 'difftrace'],
-        'kani': [],
+        'kani': ['slot_order'],
         'level_text': 'Proof: the real bodies of Union/Intersection/SymmetricDifference/Difference::next are verified against an abstraction '
                       'of the stream heap (the item of each stream in the heap + what each stream has not yielded yet): each call performs '
                       'union steps at the minimal outstanding key and reports exactly the (index, value) pairs of the streams headed by that '
